@@ -219,7 +219,8 @@ def path_fn(name, sysd, freqs, tier):
     return fn
 
 
-FREQSETS = ([0.0, 0.3, 7.0, 90.0], [7.0, 0.0, 90.0, 0.3])
+# the third set has negative frequencies (a two-sided spectrum): the dynamic-stiffness equation has no sign restriction on W
+FREQSETS = ([0.0, 0.3, 7.0, 90.0], [7.0, 0.0, 90.0, 0.3], [-7.0, 0.0, 0.3, -90.0])
 
 
 def job(name, tier, fset=0):
@@ -396,21 +397,59 @@ def psd_fn(eng, zero_row=False):
             rr = rms[j][r]
             obls.append(E.Obl("rms[%d][%d] is a square root" % (j, r), isinstance(rr, S.SymRoot), info=info))
             if isinstance(rr, S.SymRoot):
-                obls.append(E.Obl("rms[%d][%d]^2 = trapezoidal area" % (j, r), rr.of == exp_ms, info=info))
+                # the code forms the rms from its own psd array: with those nfreq terms replaced by fresh symbols the
+                # obligation is a small polynomial identity (psd == sum over forces is proved above); the unabstracted
+                # form is kept when the replacement does not remove every transfer-function symbol
+                ts_ = [z3.Real("psdval_%d_%d_%d" % (j, r, k)) for k in range(nfreq)]
+                ab = z3.substitute(rr.of, *[(S.lift(psd[j][r, k]), ts_[k]) for k in range(nfreq)])
+                names = set(str(v) for v in _vars(ab))
+                if names <= set(str(v) for v in ts_ + fz):
+                    area_ab = z3.Sum([(fz[k] - fz[k - 1]) * (ts_[k - 1] + ts_[k]) / 2 for k in range(1, nfreq)])
+                    obls.append(E.Obl("rms[%d][%d]^2 = trapezoidal area of the returned psd row" % (j, r), ab == area_ab, info=info))
+                else:
+                    obls.append(E.Obl("rms[%d][%d]^2 = trapezoidal area" % (j, r), rr.of == exp_ms, info=info))
     return obls
 
 
+def _vars(t):
+    seen, out, todo = set(), [], [t]
+    while todo:
+        e = todo.pop()
+        if e.get_id() in seen:
+            continue
+        seen.add(e.get_id())
+        if z3.is_const(e) and e.decl().kind() == z3.Z3_OP_UNINTERPRETED:
+            out.append(e)
+        todo.extend(e.children())
+    return out
+
+
 def replay_psd(p):
+    """the model as given; if that does not reproduce (the abstracted rms obligation leaves the force PSDs and the
+    matrices unconstrained, so the solver may have set them all to zero), the model's frequencies with generic other data"""
+    ok, detail = _replay_psd(p)
+    if not ok:
+        q = dict(p)
+        q["model"] = dict((k, v) for k, v in p["model"].items() if k in ("f0", "f1", "f2"))
+        ok, detail = _replay_psd(q)
+    return ok, detail
+
+
+def _replay_psd(p):
     """real solver, concrete data: solvepsd against sum_i PSD_i |drm H_i|^2 built from unit-force fsolve runs"""
     from pyyeti import ode
     O.NP.sym = False
     mdl = p["model"]
-    gf = lambda k, d: float(Fraction(mdl[k])) if (k in mdl and mdl[k] is not None and not isinstance(mdl[k], str)) else d
+    def gf(k, d):
+        try:
+            return float(Fraction(mdl[k]))
+        except Exception:
+            return d
     rng = np.random.RandomState(4)
     ndof, nfrc, nfreq, nrow = 3, 2, 3, 2
     m, b, k = np.ones(3), np.array([0.0, 0.6, 1.2]), np.array([0.0, 300.0, 1500.0])
     ts = ode.SolveUnc(m, b, k)
-    freq = np.sort(np.array([gf("f%d" % q, 1.0 + 2 * q) for q in range(nfreq)]))
+    freq = np.sort(np.array([gf("f%d" % q, 1.0 + 2 * q + 0.5 * q * q) for q in range(nfreq)]))
     if np.any(np.diff(freq) <= 0) or freq[0] <= 0:
         freq = np.array([1.0, 3.0, 5.5])
     P = np.array([[gf("P%d_%d" % (i, q), 0.5 + i + q) for q in range(nfreq)] for i in range(nfrc)])
@@ -531,6 +570,7 @@ def jobs(tier, seed):
     for name, sysd in systems(tier).items():
         if _rb_rows(sysd):
             out.append(H.Job(name + "-freqorder2", job, name, tier, 1, weight=5))
+            out.append(H.Job(name + "-negfreq", job, name, tier, 2, weight=5))
         if not np.isrealobj(np.asarray(sysd["k"])) or not np.isrealobj(np.asarray(sysd["b"])) or (sysd.get("m") is not None and not np.isrealobj(np.asarray(sysd["m"]))):
             continue
         out.append(H.Job(name + "-history", hist_job, name, tier, weight=5))
